@@ -32,6 +32,7 @@ MIMES = {
 }
 
 ODT_FEATURES = {
+    "no-meta": "package without the optional meta.xml (twin: present)",
     "tracked-deletion": "text:tracked-changes with a deletion paragraph (twin: no tracked changes)",
     "nested-list": "a text:list inside a text:list-item (twin: flat list)",
     "nested-table": "table inside a table cell (twin: sequential tables)",
@@ -41,39 +42,44 @@ ODT_FEATURES = {
     "heading-in-list": "text:h inside a list item (twin: text:p)",
     "note-with-headings": "footnote / annotation inside a paragraph of a document that has headings (twin: no headings)",
     "empty-section": "a heading directly followed by a heading of the same level, i.e. a section without body text (twin: one paragraph between them)",
+    "empty-table": "a table whose cells are all empty between two filled tables (twin: its first cell is filled)",
 }
 ODP_FEATURES = {
+    "no-meta": "package without the optional meta.xml (twin: present)",
     "notes-only-slide": "slide whose only text is in speaker notes (twin: no notes)",
     "table-header-rows": "table with table:table-header-rows (twin: plain rows)",
     "text-outside-frame": "text in draw:custom-shape instead of draw:frame (twin: draw:frame text box)",
 }
 ODS_FEATURES = {
+    "no-meta": "package without the optional meta.xml (twin: present)",
     "header-rows": "first row in table:table-header-rows (twin: plain row)",
     "row-group": "rows inside table:table-row-group (twin: plain rows)",
     "cell-annotation": "office:annotation inside a string cell (twin: no annotation)",
     "covered-cell": "merged cell followed by table:covered-table-cell (twin: plain empty cell)",
     "repeated-cell": "table:number-columns-repeated=3 on a string cell (twin: three literal cells)",
     "repeated-row": "table:number-rows-repeated=2 on a data row (twin: two literal rows)",
+    "empty-sheet": "a sheet without content (one repeated empty filler row, as LibreOffice writes it) among other sheets (twin: one string cell)",
     "nan-cell": "a float cell with office:value=\"NaN\" (legal xsd:double) (twin: 0.5)",
     "inf-cell": "a float cell with office:value=\"INF\" or \"-INF\" (legal xsd:double) (twin: 0.5)",
 }
-ODG_FEATURES = {}   # the same picture placed twice is returned once (deduplicated by href): multiplicity of shared media is unclaimed
+ODG_FEATURES = {"no-meta": "package without the optional meta.xml (twin: present)"}   # the same picture placed twice is returned once (deduplicated by href): multiplicity of shared media is unclaimed
 
 
-def _pkg(kind: str, content: str, meta: str, styles: str | None, files: dict[str, bytes]) -> bytes:
+def _pkg(kind: str, content: str, meta: str | None, styles: str | None, files: dict[str, bytes]) -> bytes:
     bio = io.BytesIO()
     dt = (2024, 1, 2, 3, 4, 6)
     with zipfile.ZipFile(bio, "w") as z:
         z.writestr(zipfile.ZipInfo("mimetype", date_time=dt), MIMES[kind], zipfile.ZIP_STORED)
         man = [f'<manifest:file-entry manifest:full-path="/" manifest:media-type="{MIMES[kind]}"/>',
                '<manifest:file-entry manifest:full-path="content.xml" manifest:media-type="text/xml"/>',
-               '<manifest:file-entry manifest:full-path="meta.xml" manifest:media-type="text/xml"/>']
+               ] + (['<manifest:file-entry manifest:full-path="meta.xml" manifest:media-type="text/xml"/>'] if meta else [])
         if styles:
             man.append('<manifest:file-entry manifest:full-path="styles.xml" manifest:media-type="text/xml"/>')
         for name in files:
             man.append(f'<manifest:file-entry manifest:full-path="{name}" manifest:media-type="image/unknown"/>')
         z.writestr(zipfile.ZipInfo("content.xml", date_time=dt), content, zipfile.ZIP_DEFLATED)
-        z.writestr(zipfile.ZipInfo("meta.xml", date_time=dt), meta, zipfile.ZIP_DEFLATED)
+        if meta:        # meta.xml is optional
+            z.writestr(zipfile.ZipInfo("meta.xml", date_time=dt), meta, zipfile.ZIP_DEFLATED)
         if styles:
             z.writestr(zipfile.ZipInfo("styles.xml", date_time=dt), styles, zipfile.ZIP_DEFLATED)
         for name, data in files.items():
@@ -156,13 +162,14 @@ def build_odt(seed: int, feature: str | None = None, twin: bool = False):
     def para(cls="b"):
         return f'<text:p text:style-name="Standard">{inline(cls)}</text:p>'
 
-    def table(rows, cols, nested=None, header_rows=False):
+    def table(rows, cols, nested=None, header_rows=False, blank=None):
+        """blank: None = random empty cells; "all" = every cell empty; "all-but-first" = its control twin."""
         grid, xml = [], [f'<table:table table:name="T{rng.randint(1, 9999)}"><table:table-column table:number-columns-repeated="{cols}"/>']
         for i in range(rows):
             cells, grow = [], []
             for j in range(cols):
-                if rng.random() < 0.12 and (i or j):
-                    cells.append("<table:table-cell/>")
+                if (rng.random() < 0.12 and (i or j)) if blank is None else (blank == "all" or (i, j) != (0, 0)):
+                    cells.append("<table:table-cell/>" if blank is None else '<table:table-cell><text:p text:style-name="Table_20_Contents"/></table:table-cell>')
                     grow.append({"empty": True})
                     continue
                 t = w("c", 1, 2)
@@ -242,6 +249,12 @@ def build_odt(seed: int, feature: str | None = None, twin: bool = False):
                     exp.nested_tables = 2
                     exp.tables_claimed = False
                     body.append(o)
+            elif feature == "empty-table":
+                for k, bl in enumerate((None, "all-but-first" if twin else "all", None)):
+                    xml, g = table(2, 2 + (k == 1), blank=bl)
+                    exp.tables.append({"grid": g})
+                    body.append(xml)
+                    body.append(para())
             elif feature == "textbox-two-paras":
                 body.append(textbox(two=not twin))
             elif feature == "header-rows":
@@ -270,6 +283,8 @@ def build_odt(seed: int, feature: str | None = None, twin: bool = False):
               f'<style:header><text:p>{hdr}</text:p></style:header><style:footer><text:p>{ftr}</text:p></style:footer></style:master-page></office:master-styles></office:document-styles>')
     content = (f'<?xml version="1.0" encoding="UTF-8"?><office:document-content {NSDECL}><office:automatic-styles><style:style style:name="T1" style:family="text"/></office:automatic-styles>'
                f'<office:body><office:text>{"".join(body)}</office:text></office:body></office:document-content>')
+    if risky == "no-meta":
+        meta, exp.meta = None, {}
     return _pkg("odt", content, meta, styles, files), exp
 
 
@@ -364,6 +379,8 @@ def build_odp(seed: int, feature: str | None = None, twin: bool = False):
         pages.append(f'<draw:page draw:name="page{s + 1}" draw:master-page-name="Default">{"".join(frames)}{notes}</draw:page>')
     exp.n_units = n_slides
     content = (f'<?xml version="1.0" encoding="UTF-8"?><office:document-content {NSDECL}><office:body><office:presentation>{"".join(pages)}</office:presentation></office:body></office:document-content>')
+    if risky == "no-meta":
+        meta, exp.meta = None, {}
     return _pkg("odp", content, meta, None, files), exp
 
 
@@ -383,6 +400,8 @@ def build_ods(seed: int, feature: str | None = None, twin: bool = False):
     meta = _meta(tk, exp, rng)
     files: dict[str, bytes] = {}
     n_sheets = rng.randint(1, 4)
+    if feature == "empty-sheet":
+        n_sheets = max(2, n_sheets)
     feature_sheet = rng.randrange(n_sheets)
     tables = []
     n_img = 0
@@ -391,6 +410,8 @@ def build_ods(seed: int, feature: str | None = None, twin: bool = False):
         rows, cols = rng.randint(2, 6), rng.randint(2, 5)
         grid, trs = [], []
         is_f = feature is not None and s == feature_sheet
+        if is_f and feature == "empty-sheet":
+            rows = 0        # a sheet that holds nothing but LibreOffice's one empty filler row (twin: one string cell)
         for i in range(rows):
             cells, grow = [], []
             j = 0
@@ -510,10 +531,19 @@ def build_ods(seed: int, feature: str | None = None, twin: bool = False):
             n_img += 1
             fx, _ = _frame_image(rng, files, exp, n_img, s + 1)
             shapes = f"<table:shapes>{fx}</table:shapes>"
+        if is_f and feature == "empty-sheet":
+            if twin:
+                t = exp.text(tk.new("c"), s)
+                trs.append(f'<table:table-row><table:table-cell office:value-type="string"><text:p>{t}</text:p></table:table-cell></table:table-row>')
+                grid.append([{"toks": [t]}])
+            else:
+                trs.append(f'<table:table-row table:number-rows-repeated="1048576"><table:table-cell table:number-columns-repeated="{cols}"/></table:table-row>')
         tables.append(f'<table:table table:name="{name}">{shapes}<table:table-column table:number-columns-repeated="{cols}"/>{"".join(trs)}</table:table>')
         exp.tables.append({"grid": grid, "unit": s + 1})
     exp.n_units = n_sheets
     content = (f'<?xml version="1.0" encoding="UTF-8"?><office:document-content {NSDECL}><office:body><office:spreadsheet>{"".join(tables)}</office:spreadsheet></office:body></office:document-content>')
+    if risky == "no-meta":
+        meta, exp.meta = None, {}
     return _pkg("ods", content, meta, None, files), exp
 
 
@@ -556,6 +586,8 @@ def build_odg(seed: int, feature: str | None = None, twin: bool = False):
             fx2, _ = _frame_image(rng, files, exp, n_img, None, reuse=im)
         shapes.append(fx2)
     content = (f'<?xml version="1.0" encoding="UTF-8"?><office:document-content {NSDECL}><office:body><office:drawing><draw:page draw:name="page1">{"".join(shapes)}</draw:page></office:drawing></office:body></office:document-content>')
+    if feature == "no-meta" and not twin:
+        meta, exp.meta = None, {}
     return _pkg("odg", content, meta, None, files), exp
 
 
